@@ -164,6 +164,37 @@ Proof.
   - injection H as <- _. left. exact Hn.
 Qed.
 
+(** C07: cut / join / cast with an `into` destination only *read* the operand and write the result to the
+    destination; without one the operand itself is rewritten in place by one write visit *)
+Theorem mutation_into_clause prof f op operand d param xs e :
+  exec_stmt prof (S f) (SMutation op operand (Some d) param) xs e =
+  after_tick e (fun e =>
+    let+ (pv, e1) := match param with
+                     | Some px => let+ (v, e') := produce_expr prof f px e in XOk (Some v) e'
+                     | None => XOk None e
+                     end in
+    let+ (v, e2) := produce_primary prof f operand e1 in
+    let+ (v', e3) := lift_val (apply_mutation op v pv) e2 in
+    let+ (_, e4) := settle (write_primary prof f (WAssign v') (lhs_as_primary d) e3) in
+    XOk xs e4).
+Proof. reflexivity. Qed.
+
+Theorem mutation_in_place_clause prof f op operand param xs e :
+  exec_stmt prof (S f) (SMutation op operand None param) xs e =
+  after_tick e (fun e =>
+    let+ (pv, e1) := match param with
+                     | Some px => let+ (v, e') := produce_expr prof f px e in XOk (Some v) e'
+                     | None => XOk None e
+                     end in
+    let+ (_, e2) := settle (write_primary prof f (WMutate op pv) operand e1) in
+    XOk xs e2).
+Proof. reflexivity. Qed.
+
+Theorem rounding_clause prof f dir operand xs e :
+  exec_stmt prof (S f) (SRounding dir operand) xs e =
+  after_tick e (fun e => let+ (_, e1) := settle (write_expr prof f (WRound dir) operand e) in XOk xs e1).
+Proof. reflexivity. Qed.
+
 Theorem while_until_clause prof f c b xs e :
   exec_stmt prof (S f) (SWhile c b) xs e = after_tick e (exec_loop prof f false c b xs) /\
   exec_stmt prof (S f) (SUntil c b) xs e = after_tick e (exec_loop prof f true c b xs).
